@@ -93,7 +93,7 @@ def geometries(n, ratio, max_missing):
     return out
 
 
-def space_for(n, ratio, max_missing, cli=False):
+def space_for(n, ratio, max_missing, cli=False, far=False):
     geo = geometries(n, ratio, max_missing)
     size = len(geo) * 4 * len(VARIANTS)
 
@@ -103,15 +103,26 @@ def space_for(n, ratio, max_missing, cli=False):
         et = i % 4
         i //= 4
         offset, start_shift, m, miss, rephase = geo[i]
-        return {'kind': 'cli' if cli else 'db', 'n': n, 'ratio': ratio,
+        case = {'kind': 'cli' if cli else 'db', 'n': n, 'ratio': ratio,
                 'offset': offset, 'start_shift': start_shift, 'm': m,
                 'missing': list(miss), 'restart_late_by': rephase,
                 'et_early': et & 1,
                 'et_late': (et >> 1) & 1, 'order': VARIANTS[v][0],
                 'zone': VARIANTS[v][1]}
-    return Space('%s/n=%d/level-step=%s x rain step/missing<=%d' % (
-        'main(load)' if cli else 'load_data', n, ratio, max_missing),
-        size, decode)
+        if far == 'marker':
+            # levels passing through -9999 mm, a value loggers use as a
+            # no-data marker but which is a level like any other here
+            case.update(level_base=-10096.0)
+        elif far:
+            # values far from everyday ones: levels a hundred metres down,
+            # cloudburst intensities, ET of a desert pan
+            case.update(level_base=-100100.0, rain_factor=4096.0,
+                        et_factor=64.0)
+        return case
+    return Space('%s/n=%d/level-step=%s x rain step/missing<=%d%s' % (
+        'main(load)' if cli else 'load_data', n, ratio, max_missing,
+        '/levels around -9999 mm' if far == 'marker' else
+        '/large magnitudes' if far else ''), size, decode)
 
 
 def spaces(tier):
@@ -121,7 +132,12 @@ def spaces(tier):
             for ratio in RATIOS:
                 out.append(space_for(n, ratio, 2))
         out.append(space_for(3, '1', 1, cli=True))
+        out.append(space_for(4, '1/2', 1, far=True))
+        out.append(space_for(4, '1/2', 1, far='marker'))
     else:
+        out.append(space_for(5, '1/2', 2, far='marker'))
+        out.append(space_for(5, '1/2', 2, far=True))
+        out.append(space_for(4, '1', 1, far=True))
         for n in (3, 4, 5, 6, 7):
             for ratio in RATIOS:
                 out.append(space_for(n, ratio, 3))
@@ -137,13 +153,14 @@ def build(case):
     num, den = RATIOS[case['ratio']]
     lstep = DT * num // den
     t0 = T0_DST if case['zone'] not in ZONE_OFFSET else records.T0_DEFAULT
-    rain = [(t0 + k * DT, 0.5 + k) for k in range(n)]
+    rain = [(t0 + k * DT, (0.5 + k) * case.get('rain_factor', 1.0))
+            for k in range(n)]
     start = t0 + case['start_shift'] * DT + case['offset']
     late = case.get('restart_late_by') or 0
     first_hole = min(case['missing']) if case['missing'] else None
     level = [(start + j * lstep + (late if first_hole is not None
                                    and j > first_hole else 0),
-              100.0 + 0.25 * j * j - 3.0 * j)
+              case.get('level_base', 0.0) + 100.0 + 0.25 * j * j - 3.0 * j)
              for j in range(case['m']) if j not in case['missing']]
     lo, hi = level[0][0], level[-1][0]
     inside = [t for t, _ in rain if lo <= t <= hi]
@@ -151,7 +168,8 @@ def build(case):
     closing = (inside[-1] if inside else rain[-1][0]) + DT
     e0 = first - (2 * DT if case['et_early'] else 0)
     e1 = closing + (2 * DT if case['et_late'] else 0)
-    et = [(t, 0.01 * (1 + (t - t0) // DT % 17) + 1.0)
+    et = [(t, (0.01 * (1 + (t - t0) // DT % 17) + 1.0)
+           * case.get('et_factor', 1.0))
           for t in range(e0, e1 + 1, DT)]
     return rain, et, level
 
